@@ -13,6 +13,7 @@ run on the same histories: MemImpl in the variant probed from the tree must repr
 real code == MemImpl(probed) and reference == Spec are both sampled, and MemImpl(repaired) == Spec is the theorem.
 A predicate failure is attributed to a known deviation only if MemImpl(probed) explains the real answers and
 repairing that flag in the model changes them; anything else is a violation."""
+import itertools
 import json
 import os
 import re
@@ -528,11 +529,14 @@ def run(ctx, only_cases=None):
         key = o["prop_key"]
         if c["mode"] == "mem" and idx not in bad_impl and res:
             # MemImpl(probed) explains the real answers: which known deviation is responsible?
+            # smallest set of probed deviations whose repair (in the model) changes the answers; two deviations can mask
+            # each other (pinned SetExpiration(k,0) then pinned CAS), so singles first, then pairs, ...
             nonrep = [f for f in FLAGS if not flags[f]]
-            trial = [case_value(0, dict(flags, **{f: True}), c["tol"], c["ops"], o["obs"]) for f in nonrep]
-            involved = [f for f, ok in zip(nonrep, vlib.model_eval("C13", trial) if trial else []) if not ok]
+            subsets = [ss for r in range(1, len(nonrep) + 1) for ss in itertools.combinations(nonrep, r)]
+            trial = [case_value(0, dict(flags, **{f: True for f in ss}), c["tol"], c["ops"], o["obs"]) for ss in subsets]
+            involved = [ss for ss, ok in zip(subsets, vlib.model_eval("C13", trial) if trial else []) if not ok]
             if involved:
-                key = FLAG_KEY[involved[0]]
+                key = FLAG_KEY[involved[0][0]]
                 by_flag[key] = by_flag.get(key, 0) + 1
         if key in reported:
             continue
